@@ -15,6 +15,15 @@ CLAIMED = {
             'a symbolic as_tuple() contract stub plus picked literals (stated in evidence).',
             'symbolic execution of the real code (CrossHair primitives + z3), path-tree exhaustion, concrete replay'),
 }
+CLAIMED['C09'] = (
+    'Bounded symbolic model checking of LogicalType.logical_parse / combine / LogicalMeta operators: for every ordered '
+    'pair (and picked triples) of 10 leaf types the combinator verdict is compared with the verdicts of the arguments '
+    'run alone on the same solver-chosen input (unbounded symbolic ints and thresholds where the leaves are arithmetic, '
+    'picked vocabulary otherwise); order-independence of xor, identity of negation, sequential meaning of conjunction '
+    'and the construction algebra are asserted on every path; all path trees are exhausted.',
+    'argument acceptance is defined by type_transform(x, arg) under default options; text->number conversion only over '
+    'the stated vocabulary; known finding K-C09-xor-exact-type is reported, not hidden',
+    'symbolic execution of the real code (CrossHair primitives + z3), path-tree exhaustion, concrete replay')
 NOT_APPLICABLE = {}
 
 def main():
